@@ -345,6 +345,48 @@ def readAllGrow (c : Conn) (rid : Nat) (caps : List Nat) : (Bytes × Option RErr
   | cap :: rest => readAllGrowLoop (c.fuel + 2) c rid rest 0 cap []
   | [] => readAllGrowLoop (c.fuel + 2) c rid [] 0 512 []
 
+/-! ### the decompressing reader (compression.go: flateReadWrapper over the message reader) -/
+
+/-- What compress/flate does with the raw message is an environment answer: through its own
+    bufio.Reader it makes raw read requests of the sizes `reqs` (Go-internal) and then either reports
+    the end of the deflate stream (`ok = true`) or a data error. A failing read ends it with that
+    error. The request size of the drain (`drainK`) is Go-internal as well. -/
+structure ZEnv where
+  reqs : List Nat      -- sizes of the raw read requests the decompressor makes, in order
+  ok : Bool            -- after them it reports the end of the deflate stream (true) or a data error
+  drainK : Nat         -- request size of the drain (io.Copy(io.Discard, src))
+  deriving Repr, DecidableEq
+
+inductive ZRes
+  | complete                 -- flateReadWrapper.Read returned io.EOF: the message is reported complete
+  | failed (e : RErr)
+  deriving Repr, DecidableEq
+
+/-- the decompressor's raw reads: requests of the given sizes; stops at the first error, or at
+    the end of the raw message (io.EOF: the MultiReader goes on with the fixed tail and the connection
+    is not read any more). Returns the raw bytes handed over and what stopped the reads. -/
+def zFills : List Nat → Conn → Nat → List Bytes → (Bytes × Option RErr) × Conn
+  | [], c, _, acc => ((acc.reverse.flatten, none), c)
+  | k :: ks, c, rid, acc =>
+    match mrRead c rid k with
+    | ((bs, none), c) => zFills ks c rid (bs :: acc)
+    | ((bs, some e), c) => (((bs :: acc).reverse.flatten, some e), c)
+
+/-- flateReadWrapper.Read up to the end of a compressed message, as far as completion is concerned.
+    When the deflate stream ends before the raw message does (a final block before the last frame),
+    the rest of the message is drained (io.Copy(io.Discard, src): requests of `drainK` bytes) and io.EOF is
+    reported only if that ends cleanly — the repair of finding F10. -/
+def zReadToEnd (c : Conn) (rid : Nat) (env : ZEnv) : (Bytes × ZRes) × Conn :=
+  match zFills env.reqs c rid [] with
+  | ((raw, some .eof), c) => ((raw, if env.ok then .complete else .failed .inflate), c)
+  | ((raw, some e), c) => ((raw, .failed e), c)
+  | ((raw, none), c) =>
+    if !env.ok then ((raw, .failed .inflate), c)
+    else
+      match readAll c rid env.drainK with
+      | ((_, none), c) => ((raw, .complete), c)
+      | ((_, some e), c) => ((raw, .failed e), c)
+
 def setReadLimit (c : Conn) (l : Int) : Conn := { c with r := { c.r with limit := l } }
 
 /-! ### JoinMessages -/
